@@ -725,6 +725,10 @@ impl UdpSocket {
     }
     pub async fn send_to<A: ToSocketAddrs>(&self, b: &[u8], a: A) -> io::Result<usize> {
         let to = a.resolve()?.into_iter().next().ok_or_else(|| io::Error::from(io::ErrorKind::InvalidInput))?;
+        // an AF_INET socket cannot send to an AF_INET6 address and vice versa (EAFNOSUPPORT)
+        if to.is_ipv4() != self.addr.is_ipv4() {
+            return Err(io::Error::other("Address family not supported by protocol (os error 97)"));
+        }
         let dst = with(|w| w.udp.get(&to.port()).map(|(ip, st)| (*ip, st.clone())));
         // source address as the receiver sees it: our bound ip, or the destination's ip if unspecified
         let src = if self.addr.ip().is_unspecified() { SocketAddr::new(to.ip(), self.addr.port()) } else { self.addr };
